@@ -70,7 +70,9 @@ Verdict_decode2(e) ==
         bind == /\ o.ok = req.ok /\ o.status = req.status /\ o.cmd = req.cmd /\ o.code = req.code
                 /\ (o.ok /\ req.ok => o.v = req.v)
         \* status-only agreement for inputs whose value is not the point (byte-level mutations)
-        c05 == IF m.ok THEN TRUE                      \* accepted by the model: not a C05 matter
+        \* a rejection reports the status ITS FAULT calls for: a message without any fault that is
+        \* rejected (with whatever status) reports a fault that is not there
+        c05 == IF m.ok THEN o.ok
                ELSE ~o.ok /\ o.status = m.status       \* must be rejected, with the status the fault calls for
         eqProps == ps \ {"C04", "C05"}
     IN  [bind |-> m.unspec \/ bind, unspec |-> m.unspec,
